@@ -186,10 +186,10 @@ def world_family(ctx, prop):
     world_s2i(ctx, prop, r["replay"], variants=1, label="2 inserts + every (state, &self call, outcome) within %d calls" % (n - 2))
     if not q:
         # long behaviours chosen by TLC's simulator (it evaluates Emit on every successor of the last
-        # step, so each of the 4 x 100 random walks yields a bundle of sibling behaviours)
-        r = world_mc(ctx, prop, steps=14, view="MCView", emit_from=14, shapes="ShapesOpt", guards=4, simulate=100,
+        # step, so each of the 4 x 40 random walks yields a bundle of sibling behaviours)
+        r = world_mc(ctx, prop, steps=12, view="MCView", emit_from=12, shapes="ShapesOpt", guards=4, simulate=40,
                      label="emit-simulation", workers=4)
-        world_s2i(ctx, prop, r["replay"], variants=1, label="simulated behaviours of 14 calls")
+        world_s2i(ctx, prop, r["replay"], variants=1, label="simulated behaviours of 12 calls")
     # (3) impl -> spec
     if q:
         world_random(ctx, prop, blocks=24, length=250)
